@@ -100,29 +100,28 @@ def run(ctx: Ctx) -> None:
         ctx.check(v2 == v1 and is_wrapped(v1), "N2", f"expression({name}) re-read", lx, f"{v1.describe() if isinstance(v1, SStr) else v1}", f"normal form of ({name}) is {v1!r}, but formatting its re-read gives {v2!r}")
 
     # ---- N3 ------------------------------------------------------------------------------------------
-    ctx.rule("N3", "escape_quotes removes existing escapes before escaping and leaves a quoted string without interior quotes unchanged", 2)
+    ctx.rule("N3", "escape_quotes (evaluated): identity on a quoted string without interior quotes, escapes an interior quote once, and is idempotent on its own result", 6)
     eq = repo.func("quoter.Quoter.escape_quotes")
-    reps = [c for c in calls_in(eq) if isinstance(c.func, ast.Attribute) and c.func.attr == "replace"]
-    unesc = [c for c in reps if len(c.args) == 2 and "\\\\" in norm(c.args[0])]
-    esc = [c for c in reps if len(c.args) == 2 and "\\\\" in norm(c.args[1]) and "\\\\" not in norm(c.args[0])]
-    order_ok = bool(unesc and esc) and all(u.lineno <= x.lineno for u in unesc for x in esc)
-    # the escaped value derives from the unescaped one: same variable chain
-    chain_ok = False
-    for x in esc:
-        base = x.func.value
-        if isinstance(base, ast.Name):
-            for n2 in ast.walk(eq):
-                if isinstance(n2, ast.Assign) and isinstance(n2.targets[0], ast.Name) and n2.targets[0].id == base.id and any(u in list(ast.walk(n2.value)) for u in unesc):
-                    chain_ok = True
-        elif any(u in list(ast.walk(base)) for u in unesc):
-            chain_ok = True
-    ctx.check(order_ok and chain_ok, "N3", "escape_quotes: unescape then escape", repo.loc("quoter", eq), "", "escape_quotes does not apply the re-escaping to the un-escaped text: already escaped quotes gain a backslash on every pass")
     I = e.interp(allow_fork=False)
-    for q in ('"',):
-        body = Atom("s", nonempty=False, excludes=frozenset("\"'\\"))
-        outs = I.explore("quoter.Quoter.escape_quotes", lambda: (I.instantiate("quoter.Quoter", [q], {}), [SStr([q, body, q])], {}))
-        ctx.check(len(outs) == 1 and outs[0].value == SStr([q, body, q]), "N3", "escape_quotes on a string without interior quotes", repo.loc("quoter", eq), "identity", f"escape_quotes({q}<s>{q}) = {[o.value for o in outs]}")
+    noq = frozenset("\"'\\")
+    for q in ('"', "'"):
+        a, b = Atom("a", nonempty=True, excludes=noq), Atom("b", nonempty=True, excludes=noq)
+        body = Atom("s", nonempty=False, excludes=noq)
 
+        def esc(value, q=q):
+            outs = I.explore("quoter.Quoter.escape_quotes", lambda: (I.instantiate("quoter.Quoter", [q], {}), [value], {}))
+            if len(outs) != 1 or outs[0].kind != "return":
+                raise AnalysisError(f"escape_quotes not evaluable on {value!r}: {[(o.kind, o.exc) for o in outs]}")
+            return outs[0].value
+
+        plain = SStr([q, body, q])
+        ctx.check(esc(plain) == plain, "N3", f"escape_quotes on a string without interior quotes (quote {q})", repo.loc("quoter", eq), "identity", f"escape_quotes({q}<s>{q}) = {esc(plain)!r}")
+        inner = SStr([q, a, q, b, q])
+        once = esc(inner)
+        want = SStr([q, a, "\\" + q, b, q])
+        ctx.check(once == want, "N3", f"an interior quote is escaped once (quote {q})", repo.loc("quoter", eq), want.describe(), f"escape_quotes({inner.describe()}) = {once!r}, expected {want.describe()!r}")
+        twice = esc(once) if isinstance(once, (SStr, str)) else None
+        ctx.check(twice == once, "N3", f"an already escaped quote gains nothing on a second pass (quote {q})", repo.loc("quoter", eq), "idempotent", f"escape_quotes applied to its own result {once!r} gives {twice!r}: escaped quotes gain a backslash on every pass")
     # ---- N4 ------------------------------------------------------------------------------------------
     ctx.rule("N4", "no nondeterminism source on the load / print call graphs (set iteration, hash, id, random, time, environment)", 30)
     reach = facts.reachable(["utils.loads", "utils.dumps", "utils.open", "utils.load", "utils.dump", "utils.save", "pprint.PrettyPrinter.pprint", "transformer.MapfileToDict.transform"])
